@@ -38,21 +38,64 @@ func c17Probes() []int {
 	return out
 }
 
+// c17Pow2 are powers of two and their neighbours: table sizes, index masks and
+// "fits in n bytes" limits of any implementation live there.
+func c17Pow2() []int {
+	var out []int
+	for k := 6; k <= 16; k++ {
+		for _, d := range []int{-1, 0, 1} {
+			if v := (1 << k) + d; v >= 0 && v <= 0xFFFE {
+				out = append(out, v)
+			}
+		}
+	}
+	return out
+}
+
+func c17Endpoint(r *Rand, prev []int) int {
+	probes := c17Probes()
+	switch r.Weighted([]int{5, 2, 2, 3}) {
+	case 0:
+		return probes[r.Intn(len(probes))]
+	case 1:
+		p2 := c17Pow2()
+		return p2[r.Intn(len(p2))]
+	case 2:
+		return r.Intn(0xFFFF)
+	default:
+		// relative to an endpoint used before: adjacent ranges, gaps of one, overlaps by one
+		if len(prev) == 0 {
+			return probes[r.Intn(len(probes))]
+		}
+		v := prev[r.Intn(len(prev))] + r.PickInt([]int{-2, -1, 0, 1, 2, 2, 0x40, -0x40, 0x80, 0x100})
+		if v < 0 {
+			v = 0
+		}
+		if v > 0xFFFE {
+			v = 0xFFFE
+		}
+		return v
+	}
+}
+
 func (propC17) Gen(r *Rand) *Plan {
 	target := []string{"map", "map", "states", "wordchars", "whitespacechars"}[r.Intn(5)]
 	probes := c17Probes()
 	nops := r.Range(1, 30*r.Size())
+	clearW := r.PickInt([]int{0, 1, 1, 2})
 	var ops []Op
+	var prev []int
 	for i := 0; i < nops; i++ {
-		switch r.Weighted([]int{10, 2, 1, 4}) {
+		switch r.Weighted([]int{10, 2, clearW, 4}) {
 		case 0:
-			a, b := probes[r.Intn(len(probes))], probes[r.Intn(len(probes))]
+			a, b := c17Endpoint(r, prev), c17Endpoint(r, prev)
 			if r.Bool(0.3) {
 				b = a
 			}
 			if a > b {
 				a, b = b, a
 			}
+			prev = append(prev, a, b)
 			ops = append(ops, Op{Op: "add", I: a, J: b, S: r.Pick([]string{"A", "B", "A", "B", "none"})})
 		case 1:
 			ops = append(ops, Op{Op: "adddefault", S: r.Pick([]string{"A", "B", "none"})})
@@ -63,6 +106,49 @@ func (propC17) Gen(r *Rand) *Plan {
 		}
 	}
 	return &Plan{Scenario: target, Tasks: []TaskPlan{{Ops: ops}}}
+}
+
+// c17ProbesFor are the characters looked up after operation i: the boundary
+// set, the endpoints of the last few registrations with their neighbours, and
+// single-bit flips of the latest endpoints (what a direct-mapped cache or an
+// index computed from some bits of the character would confuse them with).
+func c17ProbesFor(ops []Op, i int) []int {
+	seen := map[int]bool{}
+	var out []int
+	add := func(v int) {
+		// surrogate code points cannot travel through a Go string (the word / whitespace
+		// targets are observed through a scanner over a string): never probed
+		if v >= 0 && v <= 0xFFFE && !(v >= 0xD800 && v <= 0xDFFF) && !seen[v] {
+			seen[v] = true
+			out = append(out, v)
+		}
+	}
+	for _, p := range c17Probes() {
+		add(p)
+	}
+	n := 0
+	for j := i; j >= 0 && n < 6; j-- {
+		if ops[j].Op != "add" {
+			continue
+		}
+		n++
+		for _, e := range []int{ops[j].I, ops[j].J} {
+			for _, d := range []int{-2, -1, 0, 1, 2} {
+				add(e + d)
+			}
+			if n <= 2 {
+				for b := 0; b < 16; b++ {
+					add(e ^ (1 << b))
+				}
+			}
+		}
+	}
+	if i%4 == 0 {
+		for _, p := range c17Pow2() {
+			add(p)
+		}
+	}
+	return out
 }
 
 type c17Reg struct {
@@ -208,7 +294,7 @@ func (propC17) Exec(p *Plan, x *Ctx) *Outcome {
 			return "?"
 		}
 		checkAll := func(i int, op string) {
-			for _, ch := range probes {
+			for _, ch := range c17ProbesFor(ops, i) {
 				want := model.lookup(ch)
 				got := observe(ch)
 				if got != want {
@@ -222,8 +308,13 @@ func (propC17) Exec(p *Plan, x *Ctx) *Outcome {
 				}
 			}
 		}
+		decoy := utilities.NewCharReferenceMap()
 		for i, o := range ops {
 			run.ResetOpSteps()
+			// a second map alive at the same time, registered and looked up differently:
+			// maps must not share registrations or lookup state
+			decoy.AddInterval(rune((i*37)%0x3000), rune((i*37)%0x3000+i%0x500), refB)
+			decoy.Lookup(rune((i * 131) % 0xF000))
 			switch o.Op {
 			case "add":
 				add(o.I, o.J, o.S)
